@@ -37,6 +37,9 @@ CHECKS = {
  "C13": ("exploration", "metamorphic relations R0-R4 between related queries, with an independent pattern matcher over the unfiltered result",
          "13 query functions x all accepted root kinds x selection x recursive x keys x patterns derived from present values: restriction (R1), union/order (R2), filter callback (R3), fast-lookup on/off (R4), no duplicates (R0).",
          "documented may-match for case-variant exact EDIF identifiers; no '[' in fnmatch-evaluated patterns; four open findings fence their trigger classes (see known_findings.json)", "4 C13"),
+ "C20": ("exploration", "accept/reject matrix: faithful copies must pass, copies with exactly one verified single-fact mutation must make compare() raise, both argument orders",
+         "generated named netlists x 24 mutation kinds (each verified to change exactly the canonical form) x both orders; positive side: API rebuild, the netlist itself, clone (fenced while the clone/namespace finding is open).",
+         "any exception counts as raise; copies built by API rebuild", "4 C20"),
 }
 NA = {}
 fixes = subprocess.run(["git", "-C", "/repo", "log", "--format=%h %s"], capture_output=True, text=True).stdout.splitlines()
